@@ -29,6 +29,12 @@ TEXT = {
         "level_text": "Sequential: every alloc/lookup/release sequence is compared step by step with a set model (in range, not network/broadcast, exclusive, sticky, refusal only when full) and closed by a fill-until-refusal conservation check; all sequences of 8 operations up to length 6 (/30) and 5 (/29) are enumerated. Concurrent: 2-8 goroutines run generated programs under -race and the call/return history must be linearizable w.r.t. the pool specification.",
         "level_note": "Trusts porcupine's checker and the Go race detector; concurrent schedules are sampled by the Go scheduler, not enumerated.",
     },
+    "C09": {
+        "engine": "rapid-wire",
+        "technique": "model-based property testing (rapid) with an exact rate/gate oracle, lower-bound burst oracle and an admissible-set oracle for the agent's choice of session QER derived from the observed tables",
+        "level_text": "Sessions with 0-4 QERs (40-bit rates with boundaries, both gates, configured and unconfigured QFIs) and PDR QER lists drawn as permutations/sublists are established under three qci_qos_config variants and modified (add one/two QERs, update, remove, add PDR). After every accepted request every QER entry at the harness BESS server is checked: closed gate => drop gate, both rates zero => unmetered, else pir = MBR x 125, cir = max(GBR x 125, 1), cbs/pbs/ebs >= rate x duration and >= the configured minimum of the QFI. The session-wide QER is derived from the tables (QER without application-level entry): at most one, referenced by every PDR, session-level entries iff present and carrying its rates, and untouched (not rewritten) by modifications that do not update or remove it.",
+        "level_note": WIRE_NOTE + " UP4 meters/traffic classes are covered by the UP4 unit when enabled in checks_table.py.",
+    },
     "C17": {
         "engine": "rapid-direct",
         "technique": "exhaustive enumeration (thorough: all 2^32 (low, high) x 2 strategies) and boundary/random sampling (quick) of the port-range expansion through a build-tag hook, with a set-semantics oracle",
